@@ -244,6 +244,19 @@ class DataConnection(Connection, abc.ABC):
             raise ConnectionFailedError(f"{self.hostname}:{self.port} : failed to connect") from exc
 
         else:
+            if self.state != ConnectionState.CONNECTING:
+                # The connection was disconnected while the connection attempt
+                # was still being made (the closed state has been reported):
+                # close the socket that was just opened
+                writer = self._writer
+                self._reader = None
+                self._writer = None
+                if writer is not None:
+                    writer.close()
+
+                raise ConnectionFailedError(
+                    f"{self.hostname}:{self.port} : disconnected while connecting")
+
             adapter.debug("connected", extra=self.__dict__)
             await self.set_state(ConnectionState.CONNECTED)
 
